@@ -3,24 +3,4 @@ package main
 func selftestCmd(args []string) { panic("todo") }
 func replayCmd(args []string)   { panic("todo") }
 
-func (eng *Engine) runScans(prop string) []*Oblig { return nil }
-
-var sweepProps = map[string]bool{}
-
-type sweepItem struct {
-	o      *Oblig
-	replay *ReplayRecord
-}
-
-type sweepResult struct {
-	obls        []*Oblig
-	claimed     []*Oblig
-	newReplayed []sweepItem
-	assumed     map[string]bool
-}
-
-func (eng *Engine) runSweep(prop, verif string, update bool) *sweepResult { return nil }
-func (s *sweepResult) finish(eng *Engine, verif string, update bool)     {}
-func (s *sweepResult) summary() map[string]interface{}                   { return nil }
-
 func tryReplay(eng *Engine, verif string, o *Oblig, r *ReplayRecord) {}
